@@ -1,6 +1,7 @@
 /- Driver operations for the shape model (C06). -/
 import PrecondVerif.Kit.Proto
 import PrecondVerif.Model.Shapes
+import PrecondVerif.Model.ShapesIdx
 
 namespace PrecondVerif.Drv.C06
 open Lean PrecondVerif.Proto PrecondVerif.Shapes
@@ -76,7 +77,35 @@ def ops : List Op := [
     pure (obj [("block_sizes", natsToJson m.blockSizes), ("num_blocks", toJson m.numBlocks),
       ("large_axes", natsToJson m.largeAxes), ("blocks_per_large_axis", natsToJson m.blocksPerLargeAxis),
       ("blocks_axis", toJson m.blocksAxis),
-      ("blocked", tensorJson x), ("deblocked", tensorJson y)]))
+      ("blocked", tensorJson x), ("deblocked", tensorJson y)])),
+  -- second round: the closed index maps (`Model/ShapesIdx.lean`), executed against the real blocks
+  ("partition_idx", fun j => do
+    let shape ← getNats j "shape"
+    let b ← getNat j "block"
+    let grid := blockGrid shape b
+    let ks := List.range (prod grid)
+    pure (obj [("grid", natsToJson grid),
+      ("coords", listToJson natsToJson (ks.map (blockCoords shape b))),
+      ("offsets", listToJson natsToJson (ks.map (blockOffsets shape b))),
+      ("dims", listToJson natsToJson (ks.map (blockDims shape b))),
+      -- the blocks rebuilt from the index description alone: block k = t.box (offsets k) (dims k)
+      ("boxes", listToJson (fun k => tensorJson ((arange shape).box (blockOffsets shape b k) (blockDims shape b k))) ks),
+      ("locate", listToJson (fun idx =>
+          let r := locateBlock shape b idx
+          natsToJson (r.1 :: r.2)) (allIdx shape))])),
+  ("blockify_idx", fun j => do
+    let shape ← getNats j "shape"
+    let b ← getNat j "block"
+    let m := blocksMetadata b shape
+    let bs := blockedShape m
+    pure (obj [("blocked_shape", natsToJson bs),
+      ("block_offsets", listToJson natsToJson ((List.range m.numBlocks).map (tfBlockOffsets m))),
+      -- value of the blockified arange at x = row-major position of the parameter entry it comes from
+      ("unblocked", natsToJson ((allIdx bs).map fun x => ravel shape (unblockedIndex m x))),
+      -- where deblockify reads the parameter entry idx from
+      ("blocked_pos", natsToJson ((allIdx shape).map fun idx => ravel bs (blockedIndex m idx))),
+      ("block_of", natsToJson ((allIdx shape).map (blockIndexOf m))),
+      ("inner_of", listToJson natsToJson ((allIdx shape).map (innerIndexOf m)))]))
 ]
 
 end PrecondVerif.Drv.C06
